@@ -2,6 +2,8 @@ mod coherent;
 mod core;
 mod engine;
 mod gen;
+mod graphcase;
+mod oracle;
 mod model;
 mod props;
 
@@ -54,6 +56,10 @@ fn main() {
         "C01" => engine::run(&props::c01::C01, &opts),
         "C02" => engine::run(&props::c02::C02 { tier }, &opts),
         "C03" => engine::run(&props::c03::C03, &opts),
+        "C04" => engine::run(&props::c04::C04, &opts),
+        "C05" => engine::run(&props::c05::C05, &opts),
+        "C06" => engine::run(&props::c06::C06, &opts),
+        "C08" => engine::run(&props::c08::C08, &opts),
         _ => {
             eprintln!("unknown property {}", id);
             2
